@@ -468,7 +468,7 @@ func (c *Checker) sequentialOf(rr *RunResult) *RunSpec {
 func (c *Checker) compareDigests(o evalOpts, rr *RunResult) ([]Violation, error) {
 	var ops []uint64
 	for _, e := range rr.Ends {
-		if e.Cls != "event" && e.D != "legacy" && e.D != "" {
+		if e.Cls != "event" && e.D != "legacy" && e.D != "" && !sysRejected(c.Prop, e.Op) {
 			ops = append(ops, e.Op)
 		}
 	}
@@ -477,7 +477,7 @@ func (c *Checker) compareDigests(o evalOpts, rr *RunResult) ([]Violation, error)
 	}
 	var vs []Violation
 	for _, e := range rr.Ends {
-		if e.D == "legacy" || e.D == "" {
+		if e.D == "legacy" || e.D == "" || sysRejected(c.Prop, e.Op) {
 			continue
 		}
 		bl := c.bl(rr.Spec.Corpus, e.Op)
@@ -510,6 +510,10 @@ func (c *Checker) compareDigests(o evalOpts, rr *RunResult) ([]Violation, error)
 	}
 	return vs, nil
 }
+
+// sysRejected: operations of the systematic part of C13's bank (every rejected definition x entry point) carry their
+// expected verdict by construction and are not compared with a fresh-process baseline.
+func sysRejected(prop string, op uint64) bool { return prop == "C13" && op >= 1<<32 }
 
 // shapeClass reduces a type shape to a coarse class so that signatures are stable but not seed-specific.
 func shapeClass(tag string) string {
